@@ -33,6 +33,10 @@ func genC16(enum bool) func(r *prng) *plan {
 			}
 			return p
 		}
+		if r.chance(30) {
+			// the offer path (handlers, offer workers, slot hand-over) under the statement-level yield scheduler
+			p.Cfg["ysched"] = int64(1 + r.intn(1<<30))
+		}
 		p.Cfg["limit"] = int64(r.intn(6))
 		p.Cfg["vv"] = int64(r.intn(3))
 		p.Cfg["pv"] = int64(r.intn(3))
@@ -115,6 +119,13 @@ func runC16(seed uint64, enum bool) {
 	}
 	V := w.newBase(nodeCfg{name: "V", port: 9001, key: detKey(seed, 1), versions: vv, maxUtp: limit, capacityMB: 100})
 	vp := V.newPlainProto(portalwire.History)
+	if ys := p.cfg("ysched"); ys != 0 {
+		w.ys, w.ysRng = newYsched(mutexesOf(vp.p)), newPrng(uint64(ys))
+		portalwire.VerifProtoYieldHook = w.ys.yield
+		w.ys.wake = w.net.wake
+		w.ys.on = true
+		w.probe("offer_path_yield_scheduled")
+	}
 	tr := newOfferTracker()
 	tr.now = w.now
 	var pups []*puppet
